@@ -510,10 +510,11 @@ package base
 //@   ensures [C03] mapvarkey: gerr == nil && rv_kind(ite(rv_kind(VAL) == 22, rv_elem(VAL), VAL)) == 21 && len(m.Varkey) > 0 ==> nw == 1 && result.1 == nil && result.0 == ite(rv_valid(rv_mapindex(ite(rv_kind(VAL) == 22, rv_elem(VAL), VAL), WK)), rv_mapindex(ite(rv_kind(VAL) == 22, rv_elem(VAL), VAL), WK), rv_zero(rt_elem(rv_typ(ite(rv_kind(VAL) == 22, rv_elem(VAL), VAL)))))
 //@   ensures [C03] mapstrkey: gerr == nil && rv_kind(ite(rv_kind(VAL) == 22, rv_elem(VAL), VAL)) == 21 && len(m.Varkey) == 0 && len(m.Strkey) > 0 ==> result.1 == nil && (exists sk: rv :: rv_kind(sk) == 24 && rv_str(sk) == m.Strkey && result.0 == ite(rv_valid(rv_mapindex(ite(rv_kind(VAL) == 22, rv_elem(VAL), VAL), sk)), rv_mapindex(ite(rv_kind(VAL) == 22, rv_elem(VAL), VAL), sk), rv_zero(rt_elem(rv_typ(ite(rv_kind(VAL) == 22, rv_elem(VAL), VAL))))))
 //@   ensures [C03] mapintkey: gerr == nil && rv_kind(ite(rv_kind(VAL) == 22, rv_elem(VAL), VAL)) == 21 && len(m.Varkey) == 0 && len(m.Strkey) == 0 ==> nw == 1 && result.1 == nil && result.0 == ite(rv_valid(rv_mapindex(ite(rv_kind(VAL) == 22, rv_elem(VAL), VAL), WK)), rv_mapindex(ite(rv_kind(VAL) == 22, rv_elem(VAL), VAL), WK), rv_zero(rt_elem(rv_typ(ite(rv_kind(VAL) == 22, rv_elem(VAL), VAL)))))
-//@   ensures [C03] seqvarkey: gerr == nil && (rv_kind(ite(rv_kind(VAL) == 22, rv_elem(VAL), VAL)) == 23 || rv_kind(ite(rv_kind(VAL) == 22, rv_elem(VAL), VAL)) == 17) && len(m.Varkey) > 0 ==> result.1 == nil && result.0 == rv_index(ite(rv_kind(VAL) == 22, rv_elem(VAL), VAL), rv_int(KV))
+//@   ensures [C03] seqvarkey: gerr == nil && (rv_kind(ite(rv_kind(VAL) == 22, rv_elem(VAL), VAL)) == 23 || rv_kind(ite(rv_kind(VAL) == 22, rv_elem(VAL), VAL)) == 17) && len(m.Varkey) > 0 ==> result.1 == nil && (iK(rv_kind(KV)) && inK(rv_int(KV), 2) ==> result.0 == rv_index(ite(rv_kind(VAL) == 22, rv_elem(VAL), VAL), rv_int(KV)))
 //@   ensures [C03] seqintkey: gerr == nil && (rv_kind(ite(rv_kind(VAL) == 22, rv_elem(VAL), VAL)) == 23 || rv_kind(ite(rv_kind(VAL) == 22, rv_elem(VAL), VAL)) == 17) && len(m.Varkey) == 0 && len(m.Strkey) == 0 && m.Intkey >= 0 ==> result.1 == nil && result.0 == rv_index(ite(rv_kind(VAL) == 22, rv_elem(VAL), VAL), m.Intkey)
 //@   ensures [C03] seqbadkey: gerr == nil && (rv_kind(ite(rv_kind(VAL) == 22, rv_elem(VAL), VAL)) == 23 || rv_kind(ite(rv_kind(VAL) == 22, rv_elem(VAL), VAL)) == 17) && len(m.Varkey) == 0 && (len(m.Strkey) > 0 || m.Intkey < 0) ==> result.1 != nil
 //@   ensures [C03] notcontainer: gerr == nil && ng == 1 && rv_kind(ite(rv_kind(VAL) == 22, rv_elem(VAL), VAL)) != 21 && rv_kind(ite(rv_kind(VAL) == 22, rv_elem(VAL), VAL)) != 23 && rv_kind(ite(rv_kind(VAL) == 22, rv_elem(VAL), VAL)) != 17 ==> result.1 != nil
+//@   nopanic own when !strContains(m.Name, ".") && !strContains(m.Varkey, ".") && len(m.Varkey) > 0 && (m.Name in dc.base) && (m.Varkey in dc.base) && (rv_kind(containerOf(dc.base[m.Name])) == 23 || rv_kind(containerOf(dc.base[m.Name])) == 17) && iK(rv_kind(dc.base[m.Varkey])) && 0 <= rv_int(dc.base[m.Varkey]) && rv_int(dc.base[m.Varkey]) < rv_len(containerOf(dc.base[m.Name]))
 //@   modifies frame evalframe
 
 // forRange key := container { body }: the iterator's keys, in iterator order, each bound once before its body run (C02)
